@@ -10,7 +10,7 @@ import ColaVerif.Lemmas.DiagTraceRules
   it has the length `n - |k|`); every other outcome is a refusal;
 * `Op.kron_trace_list` — `trace(M₁ ⊗ … ⊗ M_k) = Π trace(M_i)` from the entry formula;
 * `Op.traceCode_sound` — every rule of `trace`.
-Hypotheses: `Good A` (C01), the two named clauses `nonsqBlock = false`, `nonsqFactor = false`.
+Hypothesis: `Good A` (C01).  The `BlockDiag` / `Kronecker` rules refuse non-square members (repaired in /repo).
 -/
 
 open Finset
@@ -89,23 +89,23 @@ def DiagIH (bs0 : Nat) (alg : Alg) (k : Int) (M : Op R) : Prop :=
   ∀ d, diagCode bs0 alg M k = .ok d → d = diagK M.den.f M.rows k
 
 theorem diagCode_sound (bs0 : Nat) (hbs : 0 < bs0) (alg : Alg) :
-    ∀ (A : Op R), Good A → A.nonsqBlock = false → A.nonsqFactor = false → A.rows = A.cols →
+    ∀ (A : Op R), Good A → A.rows = A.cols →
       ∀ (k : Int), DiagIH bs0 alg k A
-  | dense dt r c a, _, _, _, hsq, k => by
+  | dense dt r c a, _, hsq, k => by
     intro d h
     simp only [rows, cols] at hsq
     subst hsq
     simp only [diagCode, Except.ok.injEq] at h
     rw [← h, npDiag_square]
     simp [den, rows]
-  | tri dt r c l a, _, _, _, hsq, k => by
+  | tri dt r c l a, _, hsq, k => by
     intro d h
     simp only [rows, cols] at hsq
     subst hsq
     simp only [diagCode, Except.ok.injEq] at h
     rw [← h, npDiag_square]
     simp [den, rows]
-  | eye dt n, _, _, _, _, k => by
+  | eye dt n, _, _, k => by
     intro d h
     simp only [diagCode] at h
     simp only [den, rows, MatV.of_f]
@@ -118,7 +118,7 @@ theorem diagCode_sound (bs0 : Nat) (hbs : 0 < bs0) (alg : Alg) :
       rw [npZeros_ok n k d h, diagK_offdiag _ n k hk]
       intro i j hij
       simp [eyeM, hij]
-  | diag dt n v, _, _, _, _, k => by
+  | diag dt n v, _, _, k => by
     intro d h
     simp only [diagCode] at h
     simp only [den, rows, MatV.of_f]
@@ -131,7 +131,7 @@ theorem diagCode_sound (bs0 : Nat) (hbs : 0 < bs0) (alg : Alg) :
       rw [npZeros_ok n k d h, diagK_offdiag _ n k hk]
       intro i j hij
       simp [diagM, hij]
-  | scalar dt s n, _, _, _, _, k => by
+  | scalar dt s n, _, _, k => by
     intro d h
     simp only [diagCode] at h
     simp only [den, rows, MatV.of_f]
@@ -149,11 +149,9 @@ theorem diagCode_sound (bs0 : Nat) (hbs : 0 < bs0) (alg : Alg) :
         · simp
         · intro i j hij
           simp [hij]
-  | sum Ms, hg, hb, hf, hsq, k =>
+  | sum Ms, hg, hsq, k =>
     have ih : ∀ M ∈ Ms, M.rows = M.cols → DiagIH bs0 alg k M := fun M hM hs =>
-      diagCode_sound bs0 hbs alg M (hg.sum_mem M hM)
-        (any_false_members (by simpa only [nonsqBlock] using hb) M hM)
-        (any_false_members (by simpa only [nonsqFactor] using hf) M hM) hs k
+      diagCode_sound bs0 hbs alg M (hg.sum_mem M hM) hs k
     by
     intro d h
     rw [diagCode] at h
@@ -172,81 +170,79 @@ theorem diagCode_sound (bs0 : Nat) (hbs : 0 < bs0) (alg : Alg) :
     by_cases h0 : 0 ≤ k
     · simp only [if_pos h0, foldr_addM_apply, List.map_map, Function.comp_def]
     · simp only [if_neg h0, foldr_addM_apply, List.map_map, Function.comp_def]
-  | annot a A, hg, hb, hf, hsq, k => by
+  | annot a A, hg, hsq, k => by
     intro d h
     rw [diagCode] at h
-    have := diagCode_sound bs0 hbs alg A hg.annot_child (by simpa only [nonsqBlock] using hb)
-      (by simpa only [nonsqFactor] using hf) (by simpa only [rows, cols] using hsq) k d h
+    have := diagCode_sound bs0 hbs alg A hg.annot_child (by simpa only [rows, cols] using hsq) k d h
     rw [this]
     simp only [den, rows]
-  | sparse dt r c e, hg, _, _, _, k => by
+  | sparse dt r c e, hg, _, k => by
     intro d h
     rw [diagCode] at h
     · exact genericDiag_sound bs0 hbs alg _ hg k d h
     all_goals (intros; contradiction)
-  | prod Ms, hg, _, _, _, k => by
+  | prod Ms, hg, _, k => by
     intro d h
     rw [diagCode] at h
     · exact genericDiag_sound bs0 hbs alg _ hg k d h
     all_goals (intros; contradiction)
-  | tridiag dt n al be ga, hg, _, _, _, k => by
+  | tridiag dt n al be ga, hg, _, k => by
     intro d h
     rw [diagCode] at h
     · exact genericDiag_sound bs0 hbs alg _ hg k d h
     all_goals (intros; contradiction)
-  | transpose A, hg, _, _, _, k => by
+  | transpose A, hg, _, k => by
     intro d h
     rw [diagCode] at h
     · exact genericDiag_sound bs0 hbs alg _ hg k d h
     all_goals (intros; contradiction)
-  | adjoint A, hg, _, _, _, k => by
+  | adjoint A, hg, _, k => by
     intro d h
     rw [diagCode] at h
     · exact genericDiag_sound bs0 hbs alg _ hg k d h
     all_goals (intros; contradiction)
-  | sliced A s0 s1, hg, _, _, _, k => by
+  | sliced A s0 s1, hg, _, k => by
     intro d h
     rw [diagCode] at h
     · exact genericDiag_sound bs0 hbs alg _ hg k d h
     all_goals (intros; contradiction)
-  | perm dt p, hg, _, _, _, k => by
+  | perm dt p, hg, _, k => by
     intro d h
     rw [diagCode] at h
     · exact genericDiag_sound bs0 hbs alg _ hg k d h
     all_goals (intros; contradiction)
-  | concat ax Ms, hg, _, _, _, k => by
+  | concat ax Ms, hg, _, k => by
     intro d h
     rw [diagCode] at h
     · exact genericDiag_sound bs0 hbs alg _ hg k d h
     all_goals (intros; contradiction)
-  | house dt n v beta, hg, _, _, _, k => by
+  | house dt n v beta, hg, _, k => by
     intro d h
     rw [diagCode] at h
     · exact genericDiag_sound bs0 hbs alg _ hg k d h
     all_goals (intros; contradiction)
-  | generic A, hg, _, _, _, k => by
+  | generic A, hg, _, k => by
     intro d h
     rw [diagCode] at h
     · exact genericDiag_sound bs0 hbs alg _ hg k d h
     all_goals (intros; contradiction)
-  | kron Ms, hg, hb, hf, hsq, k =>
+  | kron Ms, hg, hsq, k =>
     have ih : ∀ M ∈ Ms, M.rows = M.cols → DiagIH bs0 alg k M := fun M hM hs =>
-      diagCode_sound bs0 hbs alg M (hg.kron_mem M hM)
-        (any_false_members (by simpa only [nonsqBlock] using hb) M hM)
-        (any_false_members (by
-          simp only [nonsqFactor, Bool.or_eq_false_iff] at hf
-          exact hf.2) M hM) hs k
+      diagCode_sound bs0 hbs alg M (hg.kron_mem M hM) hs k
     by
     intro d h
     rw [diagCode] at h
-    have hsqM : ∀ M ∈ Ms, M.rows = M.cols := by
-      intro M hM
-      simp only [nonsqFactor, Bool.or_eq_false_iff] at hf
-      have := any_false_members (f := fun M => decide (M.rows ≠ M.cols)) hf.1 M hM
-      simpa using this
     by_cases hk : k = 0
     · subst hk
       simp only [ne_eq, not_true_eq_false, if_false] at h
+      split at h
+      · simp at h
+      rename_i hns
+      rw [Bool.not_eq_true] at hns
+      have hsqM : ∀ M ∈ Ms, M.rows = M.cols := by
+        intro M hM
+        have := any_false_members (f := fun M => decide (M.rows ≠ M.cols)) hns M hM
+        simpa using this
       cases hs : seqE (Ms.map (fun M => diagCode bs0 alg M 0)) with
       | error e => simp [hs, bind, Except.bind] at h
       | ok ds =>
@@ -262,11 +258,9 @@ theorem diagCode_sound (bs0 : Nat) (hbs : 0 < bs0) (alg : Alg) :
         simp only [forceV_f]
         rfl
     · simp [hk] at h
-  | kronsum Ms, hg, hb, hf, hsq, k =>
+  | kronsum Ms, hg, hsq, k =>
     have ih : ∀ M ∈ Ms, M.rows = M.cols → DiagIH bs0 alg k M := fun M hM hs =>
-      diagCode_sound bs0 hbs alg M (hg.kronsum_mem M hM)
-        (any_false_members (by simpa only [nonsqBlock] using hb) M hM)
-        (any_false_members (by simpa only [nonsqFactor] using hf) M hM) hs k
+      diagCode_sound bs0 hbs alg M (hg.kronsum_mem M hM) hs k
     by
     intro d h
     rw [diagCode] at h
@@ -289,24 +283,23 @@ theorem diagCode_sound (bs0 : Nat) (hbs : 0 < bs0) (alg : Alg) :
         simp only [forceV_f]
         rfl
     · simp [hk] at h
-  | bdiag Ms mults, hg, hb, hf, hsq, k =>
+  | bdiag Ms mults, hg, hsq, k =>
     have ih : ∀ M ∈ Ms, M.rows = M.cols → DiagIH bs0 alg k M := fun M hM hs =>
-      diagCode_sound bs0 hbs alg M (hg.bdiag_mem M hM)
-        (any_false_members (by
-          simp only [nonsqBlock, Bool.or_eq_false_iff] at hb
-          exact hb.2) M hM)
-        (any_false_members (by simpa only [nonsqFactor] using hf) M hM) hs k
+      diagCode_sound bs0 hbs alg M (hg.bdiag_mem M hM) hs k
     by
     intro d h
     rw [diagCode] at h
-    have hsqM : ∀ M ∈ Ms, M.rows = M.cols := by
-      intro M hM
-      simp only [nonsqBlock, Bool.or_eq_false_iff] at hb
-      have := any_false_members (f := fun M => decide (M.rows ≠ M.cols)) hb.1 M hM
-      simpa using this
     by_cases hk : k = 0
     · subst hk
       simp only [ne_eq, not_true_eq_false, if_false] at h
+      split at h
+      · simp at h
+      rename_i hns
+      rw [Bool.not_eq_true] at hns
+      have hsqM : ∀ M ∈ Ms, M.rows = M.cols := by
+        intro M hM
+        have := any_false_members (f := fun M => decide (M.rows ≠ M.cols)) hns M hM
+        simpa using this
       cases hs : seqE (Ms.map (fun M => diagCode bs0 alg M 0)) with
       | error e => simp [hs, bind, Except.bind] at h
       | ok ds =>
@@ -380,15 +373,11 @@ theorem kron_trace_list (Ms : List (Op R)) (hsq : ∀ M ∈ Ms, M.rows = M.cols)
 /-- `trace(A, alg)`: a returned value is the trace of the represented matrix (and the operator is
 square); anything else is a refusal -/
 theorem traceCode_sound (bs0 : Nat) (hbs : 0 < bs0) (alg : Alg) :
-    ∀ (A : Op R), Good A → A.nonsqBlock = false → A.nonsqFactor = false →
+    ∀ (A : Op R), Good A →
       ∀ (t : R), traceCode bs0 alg A = .ok t → A.rows = A.cols ∧ t = traceSpec A.den.f A.rows
-  | kron Ms, hg, hb, hf =>
+  | kron Ms, hg =>
     have ih : ∀ M ∈ Ms, ∀ t, traceCode bs0 alg M = .ok t → M.rows = M.cols ∧ t = traceSpec M.den.f M.rows :=
       fun M hM => traceCode_sound bs0 hbs alg M (hg.kron_mem M hM)
-        (any_false_members (by simpa only [nonsqBlock] using hb) M hM)
-        (any_false_members (by
-          simp only [nonsqFactor, Bool.or_eq_false_iff] at hf
-          exact hf.2) M hM)
     by
     intro t h
     rw [traceCode] at h
@@ -422,13 +411,12 @@ theorem traceCode_sound (bs0 : Nat) (hbs : 0 < bs0) (alg : Alg) :
         rw [den]
         simp only [forceV_f]
         rfl
-  | annot a A, hg, hb, hf => by
+  | annot a A, hg => by
     intro t h
     rw [traceCode] at h
-    have := traceCode_sound bs0 hbs alg A hg.annot_child (by simpa only [nonsqBlock] using hb)
-      (by simpa only [nonsqFactor] using hf) t h
+    have := traceCode_sound bs0 hbs alg A hg.annot_child t h
     simpa only [rows, cols, den] using this
-  | dense dt r c a, hg, hb, hf => by
+  | dense dt r c a, hg => by
     intro t h
     rw [traceCode] at h
     · split at h
@@ -440,9 +428,9 @@ theorem traceCode_sound (bs0 : Nat) (hbs : 0 < bs0) (alg : Alg) :
         | ok d =>
           simp only [hd, bind, Except.bind, pure, Except.pure, Except.ok.injEq] at h
           refine ⟨hsq', ?_⟩
-          rw [← h, diagCode_sound bs0 hbs alg _ hg hb hf hsq' 0 d hd, traceSpec_eq_diagK_sum]
+          rw [← h, diagCode_sound bs0 hbs alg _ hg hsq' 0 d hd, traceSpec_eq_diagK_sum]
     all_goals (intros; contradiction)
-  | tri dt r c l a, hg, hb, hf => by
+  | tri dt r c l a, hg => by
     intro t h
     rw [traceCode] at h
     · split at h
@@ -454,9 +442,9 @@ theorem traceCode_sound (bs0 : Nat) (hbs : 0 < bs0) (alg : Alg) :
         | ok d =>
           simp only [hd, bind, Except.bind, pure, Except.pure, Except.ok.injEq] at h
           refine ⟨hsq', ?_⟩
-          rw [← h, diagCode_sound bs0 hbs alg _ hg hb hf hsq' 0 d hd, traceSpec_eq_diagK_sum]
+          rw [← h, diagCode_sound bs0 hbs alg _ hg hsq' 0 d hd, traceSpec_eq_diagK_sum]
     all_goals (intros; contradiction)
-  | sparse dt r c e, hg, hb, hf => by
+  | sparse dt r c e, hg => by
     intro t h
     rw [traceCode] at h
     · split at h
@@ -468,9 +456,9 @@ theorem traceCode_sound (bs0 : Nat) (hbs : 0 < bs0) (alg : Alg) :
         | ok d =>
           simp only [hd, bind, Except.bind, pure, Except.pure, Except.ok.injEq] at h
           refine ⟨hsq', ?_⟩
-          rw [← h, diagCode_sound bs0 hbs alg _ hg hb hf hsq' 0 d hd, traceSpec_eq_diagK_sum]
+          rw [← h, diagCode_sound bs0 hbs alg _ hg hsq' 0 d hd, traceSpec_eq_diagK_sum]
     all_goals (intros; contradiction)
-  | scalar dt s n, hg, hb, hf => by
+  | scalar dt s n, hg => by
     intro t h
     rw [traceCode] at h
     · split at h
@@ -482,9 +470,9 @@ theorem traceCode_sound (bs0 : Nat) (hbs : 0 < bs0) (alg : Alg) :
         | ok d =>
           simp only [hd, bind, Except.bind, pure, Except.pure, Except.ok.injEq] at h
           refine ⟨hsq', ?_⟩
-          rw [← h, diagCode_sound bs0 hbs alg _ hg hb hf hsq' 0 d hd, traceSpec_eq_diagK_sum]
+          rw [← h, diagCode_sound bs0 hbs alg _ hg hsq' 0 d hd, traceSpec_eq_diagK_sum]
     all_goals (intros; contradiction)
-  | eye dt n, hg, hb, hf => by
+  | eye dt n, hg => by
     intro t h
     rw [traceCode] at h
     · split at h
@@ -496,9 +484,9 @@ theorem traceCode_sound (bs0 : Nat) (hbs : 0 < bs0) (alg : Alg) :
         | ok d =>
           simp only [hd, bind, Except.bind, pure, Except.pure, Except.ok.injEq] at h
           refine ⟨hsq', ?_⟩
-          rw [← h, diagCode_sound bs0 hbs alg _ hg hb hf hsq' 0 d hd, traceSpec_eq_diagK_sum]
+          rw [← h, diagCode_sound bs0 hbs alg _ hg hsq' 0 d hd, traceSpec_eq_diagK_sum]
     all_goals (intros; contradiction)
-  | prod Ms, hg, hb, hf => by
+  | prod Ms, hg => by
     intro t h
     rw [traceCode] at h
     · split at h
@@ -510,9 +498,9 @@ theorem traceCode_sound (bs0 : Nat) (hbs : 0 < bs0) (alg : Alg) :
         | ok d =>
           simp only [hd, bind, Except.bind, pure, Except.pure, Except.ok.injEq] at h
           refine ⟨hsq', ?_⟩
-          rw [← h, diagCode_sound bs0 hbs alg _ hg hb hf hsq' 0 d hd, traceSpec_eq_diagK_sum]
+          rw [← h, diagCode_sound bs0 hbs alg _ hg hsq' 0 d hd, traceSpec_eq_diagK_sum]
     all_goals (intros; contradiction)
-  | sum Ms, hg, hb, hf => by
+  | sum Ms, hg => by
     intro t h
     rw [traceCode] at h
     · split at h
@@ -524,9 +512,9 @@ theorem traceCode_sound (bs0 : Nat) (hbs : 0 < bs0) (alg : Alg) :
         | ok d =>
           simp only [hd, bind, Except.bind, pure, Except.pure, Except.ok.injEq] at h
           refine ⟨hsq', ?_⟩
-          rw [← h, diagCode_sound bs0 hbs alg _ hg hb hf hsq' 0 d hd, traceSpec_eq_diagK_sum]
+          rw [← h, diagCode_sound bs0 hbs alg _ hg hsq' 0 d hd, traceSpec_eq_diagK_sum]
     all_goals (intros; contradiction)
-  | kronsum Ms, hg, hb, hf => by
+  | kronsum Ms, hg => by
     intro t h
     rw [traceCode] at h
     · split at h
@@ -538,9 +526,9 @@ theorem traceCode_sound (bs0 : Nat) (hbs : 0 < bs0) (alg : Alg) :
         | ok d =>
           simp only [hd, bind, Except.bind, pure, Except.pure, Except.ok.injEq] at h
           refine ⟨hsq', ?_⟩
-          rw [← h, diagCode_sound bs0 hbs alg _ hg hb hf hsq' 0 d hd, traceSpec_eq_diagK_sum]
+          rw [← h, diagCode_sound bs0 hbs alg _ hg hsq' 0 d hd, traceSpec_eq_diagK_sum]
     all_goals (intros; contradiction)
-  | bdiag Ms mults, hg, hb, hf => by
+  | bdiag Ms mults, hg => by
     intro t h
     rw [traceCode] at h
     · split at h
@@ -552,9 +540,9 @@ theorem traceCode_sound (bs0 : Nat) (hbs : 0 < bs0) (alg : Alg) :
         | ok d =>
           simp only [hd, bind, Except.bind, pure, Except.pure, Except.ok.injEq] at h
           refine ⟨hsq', ?_⟩
-          rw [← h, diagCode_sound bs0 hbs alg _ hg hb hf hsq' 0 d hd, traceSpec_eq_diagK_sum]
+          rw [← h, diagCode_sound bs0 hbs alg _ hg hsq' 0 d hd, traceSpec_eq_diagK_sum]
     all_goals (intros; contradiction)
-  | diag dt n v, hg, hb, hf => by
+  | diag dt n v, hg => by
     intro t h
     rw [traceCode] at h
     · split at h
@@ -566,9 +554,9 @@ theorem traceCode_sound (bs0 : Nat) (hbs : 0 < bs0) (alg : Alg) :
         | ok d =>
           simp only [hd, bind, Except.bind, pure, Except.pure, Except.ok.injEq] at h
           refine ⟨hsq', ?_⟩
-          rw [← h, diagCode_sound bs0 hbs alg _ hg hb hf hsq' 0 d hd, traceSpec_eq_diagK_sum]
+          rw [← h, diagCode_sound bs0 hbs alg _ hg hsq' 0 d hd, traceSpec_eq_diagK_sum]
     all_goals (intros; contradiction)
-  | tridiag dt n al be ga, hg, hb, hf => by
+  | tridiag dt n al be ga, hg => by
     intro t h
     rw [traceCode] at h
     · split at h
@@ -580,9 +568,9 @@ theorem traceCode_sound (bs0 : Nat) (hbs : 0 < bs0) (alg : Alg) :
         | ok d =>
           simp only [hd, bind, Except.bind, pure, Except.pure, Except.ok.injEq] at h
           refine ⟨hsq', ?_⟩
-          rw [← h, diagCode_sound bs0 hbs alg _ hg hb hf hsq' 0 d hd, traceSpec_eq_diagK_sum]
+          rw [← h, diagCode_sound bs0 hbs alg _ hg hsq' 0 d hd, traceSpec_eq_diagK_sum]
     all_goals (intros; contradiction)
-  | transpose A, hg, hb, hf => by
+  | transpose A, hg => by
     intro t h
     rw [traceCode] at h
     · split at h
@@ -594,9 +582,9 @@ theorem traceCode_sound (bs0 : Nat) (hbs : 0 < bs0) (alg : Alg) :
         | ok d =>
           simp only [hd, bind, Except.bind, pure, Except.pure, Except.ok.injEq] at h
           refine ⟨hsq', ?_⟩
-          rw [← h, diagCode_sound bs0 hbs alg _ hg hb hf hsq' 0 d hd, traceSpec_eq_diagK_sum]
+          rw [← h, diagCode_sound bs0 hbs alg _ hg hsq' 0 d hd, traceSpec_eq_diagK_sum]
     all_goals (intros; contradiction)
-  | adjoint A, hg, hb, hf => by
+  | adjoint A, hg => by
     intro t h
     rw [traceCode] at h
     · split at h
@@ -608,9 +596,9 @@ theorem traceCode_sound (bs0 : Nat) (hbs : 0 < bs0) (alg : Alg) :
         | ok d =>
           simp only [hd, bind, Except.bind, pure, Except.pure, Except.ok.injEq] at h
           refine ⟨hsq', ?_⟩
-          rw [← h, diagCode_sound bs0 hbs alg _ hg hb hf hsq' 0 d hd, traceSpec_eq_diagK_sum]
+          rw [← h, diagCode_sound bs0 hbs alg _ hg hsq' 0 d hd, traceSpec_eq_diagK_sum]
     all_goals (intros; contradiction)
-  | sliced A s0 s1, hg, hb, hf => by
+  | sliced A s0 s1, hg => by
     intro t h
     rw [traceCode] at h
     · split at h
@@ -622,9 +610,9 @@ theorem traceCode_sound (bs0 : Nat) (hbs : 0 < bs0) (alg : Alg) :
         | ok d =>
           simp only [hd, bind, Except.bind, pure, Except.pure, Except.ok.injEq] at h
           refine ⟨hsq', ?_⟩
-          rw [← h, diagCode_sound bs0 hbs alg _ hg hb hf hsq' 0 d hd, traceSpec_eq_diagK_sum]
+          rw [← h, diagCode_sound bs0 hbs alg _ hg hsq' 0 d hd, traceSpec_eq_diagK_sum]
     all_goals (intros; contradiction)
-  | perm dt p, hg, hb, hf => by
+  | perm dt p, hg => by
     intro t h
     rw [traceCode] at h
     · split at h
@@ -636,9 +624,9 @@ theorem traceCode_sound (bs0 : Nat) (hbs : 0 < bs0) (alg : Alg) :
         | ok d =>
           simp only [hd, bind, Except.bind, pure, Except.pure, Except.ok.injEq] at h
           refine ⟨hsq', ?_⟩
-          rw [← h, diagCode_sound bs0 hbs alg _ hg hb hf hsq' 0 d hd, traceSpec_eq_diagK_sum]
+          rw [← h, diagCode_sound bs0 hbs alg _ hg hsq' 0 d hd, traceSpec_eq_diagK_sum]
     all_goals (intros; contradiction)
-  | concat ax Ms, hg, hb, hf => by
+  | concat ax Ms, hg => by
     intro t h
     rw [traceCode] at h
     · split at h
@@ -650,9 +638,9 @@ theorem traceCode_sound (bs0 : Nat) (hbs : 0 < bs0) (alg : Alg) :
         | ok d =>
           simp only [hd, bind, Except.bind, pure, Except.pure, Except.ok.injEq] at h
           refine ⟨hsq', ?_⟩
-          rw [← h, diagCode_sound bs0 hbs alg _ hg hb hf hsq' 0 d hd, traceSpec_eq_diagK_sum]
+          rw [← h, diagCode_sound bs0 hbs alg _ hg hsq' 0 d hd, traceSpec_eq_diagK_sum]
     all_goals (intros; contradiction)
-  | house dt n v beta, hg, hb, hf => by
+  | house dt n v beta, hg => by
     intro t h
     rw [traceCode] at h
     · split at h
@@ -664,9 +652,9 @@ theorem traceCode_sound (bs0 : Nat) (hbs : 0 < bs0) (alg : Alg) :
         | ok d =>
           simp only [hd, bind, Except.bind, pure, Except.pure, Except.ok.injEq] at h
           refine ⟨hsq', ?_⟩
-          rw [← h, diagCode_sound bs0 hbs alg _ hg hb hf hsq' 0 d hd, traceSpec_eq_diagK_sum]
+          rw [← h, diagCode_sound bs0 hbs alg _ hg hsq' 0 d hd, traceSpec_eq_diagK_sum]
     all_goals (intros; contradiction)
-  | generic A, hg, hb, hf => by
+  | generic A, hg => by
     intro t h
     rw [traceCode] at h
     · split at h
@@ -678,7 +666,7 @@ theorem traceCode_sound (bs0 : Nat) (hbs : 0 < bs0) (alg : Alg) :
         | ok d =>
           simp only [hd, bind, Except.bind, pure, Except.pure, Except.ok.injEq] at h
           refine ⟨hsq', ?_⟩
-          rw [← h, diagCode_sound bs0 hbs alg _ hg hb hf hsq' 0 d hd, traceSpec_eq_diagK_sum]
+          rw [← h, diagCode_sound bs0 hbs alg _ hg hsq' 0 d hd, traceSpec_eq_diagK_sum]
     all_goals (intros; contradiction)
 termination_by A => sizeOf A
 
